@@ -370,7 +370,7 @@ Fixpoint shape_ok (grs : list (list V3)) (gs : list GD) : Prop :=
    groups and give the derivative of its value along EVERY direction of atomic displacements *)
 Definition dir_correct (K : list GD -> R * list (list V3)) (Gs : list GD) : Prop :=
   shape_ok (snd (K Gs)) Gs /\
-  forall Ds, is_derive (fun t => fst (K (move_gs Gs t Ds))) 0 (dot_lists (snd (K Gs)) Ds).
+  forall Ds, shape_ok Ds Gs -> is_derive (fun t => fst (K (move_gs Gs t Ds))) 0 (dot_lists (snd (K Gs)) Ds).
 
 Definition ind (i a : nat) : R := if Nat.eqb i a then 1 else 0.
 Definition cnt (l : list nat) (a : nat) : R := tsum Rops (map (fun j => ind j a) l).
@@ -533,6 +533,12 @@ Proof.
   inversion Hwf as [|g0 l0 Hg Hrest]; subst. cbn [map move_gs]. rewrite gdata_set_coord by exact Hg. rewrite IH by exact Hrest. reflexivity.
 Qed.
 
+Lemma gdir_shape (s : SYS) (gs : list GRP) a k : shape_ok (map (fun g => gdir g a k) gs) (map (gdata_of Rops s) gs).
+Proof.
+  induction gs as [|g gs' IH]; cbn [map shape_ok]; [exact I|]. split; [|exact IH].
+  destruct g as [p|ids c fit fg]; cbn [gdir gdata_of gd_atoms]; [reflexivity|]. rewrite !map_length. reflexivity.
+Qed.
+
 (* d(component value)/d(coordinate k of atom a) = what the force path sends to that coordinate for a unit force *)
 Definition cvc_grad_correct (cell : option V3) (c : cvc) (s : SYS) : Prop :=
   forall a k, is_derive (fun t => cvc_value Rops PI cell c (set_coord s a k t)) (coord Rops s a k)
@@ -556,7 +562,7 @@ Proof.
     evar_last.
     + apply (is_derive_comp (fun tau => fst (keval Rops PI cell (c_kind c) (move_gs (map (gdata_of Rops s) (c_groups c)) tau (map (fun g => gdir g a k) (c_groups c)))))
                             (fun t => t - coord Rops s a k)).
-      * replace (coord Rops s a k - coord Rops s a k) with 0 by ring. apply Hdir.
+      * replace (coord Rops s a k - coord Rops s a k) with 0 by ring. apply Hdir. apply gdir_shape.
       * auto_derive; [exact I|reflexivity].
     + unfold scal; simpl; unfold mult; simpl. ring.
 Qed.
@@ -873,7 +879,7 @@ Proof.
   pose proof (gds_wf_nth gs 2 0 Hwf ltac:(lia)) as W0. pose proof (gds_wf_nth gs 2 1 Hwf ltac:(lia)) as W1.
   split.
   - unfold k_distance. cbn [snd]. apply (shape_2 (gnth gs 0) (gnth gs 1)); [apply gds_2; exact Hwf| |]; apply wgrad_length.
-  - intros Ds. unfold k_distance. cbn [fst snd]. rewrite dot_lists_2, !wgrad_dot by assumption.
+  - intros Ds _. unfold k_distance. cbn [fst snd]. rewrite dot_lists_2, !wgrad_dot by assumption.
     rewrite !pdist_plain by exact Hpl.
     apply (is_derive_ext (fun t => vnorm Rops (v3add Rops (v3sub Rops (gd_com Rops (gnth gs 1)) (gd_com Rops (gnth gs 0)))
                                                 (v3scale Rops t (v3sub Rops (comdir (gnth gs 1) (nth 1 Ds [])) (comdir (gnth gs 0) (nth 0 Ds []))))))).
@@ -889,7 +895,7 @@ Proof.
   pose proof (gds_wf_nth gs 2 0 Hwf ltac:(lia)) as W0. pose proof (gds_wf_nth gs 2 1 Hwf ltac:(lia)) as W1.
   split.
   - unfold k_distance_z. cbn [snd]. apply (shape_2 (gnth gs 0) (gnth gs 1)); [apply gds_2; exact Hwf| |]; apply wgrad_length.
-  - intros Ds. unfold k_distance_z. cbn [fst snd]. rewrite dot_lists_2, !wgrad_dot by assumption.
+  - intros Ds _. unfold k_distance_z. cbn [fst snd]. rewrite dot_lists_2, !wgrad_dot by assumption.
     apply (is_derive_ext (fun t => v3dot Rops ax (v3add Rops (v3sub Rops (gd_com Rops (gnth gs 0)) (gd_com Rops (gnth gs 1)))
                                                 (v3scale Rops t (v3sub Rops (comdir (gnth gs 0) (nth 0 Ds [])) (comdir (gnth gs 1) (nth 1 Ds []))))))).
     + intros t. rewrite !gnth_move, !pdist_plain by exact Hpl. rewrite !gd_com_move by assumption. rewrite line_sub. reflexivity.
@@ -940,7 +946,7 @@ Proof.
     unfold vnorm. cbn [neqb nsqrt Rops]. unfold zero. cbn [n0 Rops]. rewrite Reqb_false by exact Hs. reflexivity. }
   split.
   - rewrite Eg. apply (shape_2 (gnth gs 0) (gnth gs 1)); [apply gds_2; exact Hwf| |]; apply wgrad_length.
-  - intros Ds. rewrite Eg, dot_lists_2, !wgrad_dot by assumption.
+  - intros Ds _. rewrite Eg, dot_lists_2, !wgrad_dot by assumption.
     apply (is_derive_ext (fun t => vnorm Rops (v3add Rops (vperp d0 ax)
               (v3scale Rops t (vperp (v3sub Rops (comdir (gnth gs 0) (nth 0 Ds [])) (comdir (gnth gs 1) (nth 1 Ds []))) ax))))).
     + intros t. rewrite Ev, !gnth_move, !pdist_plain by exact Hpl. rewrite !gd_com_move by assumption.
@@ -1015,7 +1021,7 @@ Proof.
   intros Hl. split.
   - unfold k_inertia. cbn [snd]. pose proof (gds_1 gs Hl) as E. set (g0 := gnth gs 0) in *. rewrite E. cbn [shape_ok]. split; [|exact I].
     unfold gd_pos. rewrite !map_length. reflexivity.
-  - intros Ds. unfold k_inertia. cbn [fst snd]. rewrite dot_lists_1.
+  - intros Ds _. unfold k_inertia. cbn [fst snd]. rewrite dot_lists_1.
     apply (is_derive_ext (fun t => tsum Rops (map (v3norm2 Rops) (move_pos (gd_pos (gnth gs 0)) t (nth 0 Ds []))))).
     + intros t. rewrite gnth_move, gd_pos_move. reflexivity.
     + rewrite dot_list_scale. apply sumsq_dir.
@@ -1027,7 +1033,7 @@ Proof.
   intros Hl Hne. split.
   - unfold k_gyration. cbn [snd]. pose proof (gds_1 gs Hl) as E. set (g0 := gnth gs 0) in *. rewrite E. cbn [shape_ok]. split; [|exact I].
     unfold gd_pos. rewrite !map_length. reflexivity.
-  - intros Ds. unfold k_gyration in *. cbn [fst snd] in *. rewrite dot_lists_1.
+  - intros Ds _. unfold k_gyration in *. cbn [fst snd] in *. rewrite dot_lists_1.
     set (l := gd_pos (gnth gs 0)) in *. set (N := ofnat Rops (length l)) in *.
     cbn [nsqrt ndiv nmul Rops] in *.
     assert (Hpos : 0 < tsum Rops (map (v3norm2 Rops) l) / N).
@@ -1291,7 +1297,7 @@ Proof.
   intros Hl. split.
   - unfold k_inertia_z. cbn [snd]. pose proof (gds_1 gs Hl) as E. set (g0 := gnth gs 0) in *. rewrite E. cbn [shape_ok]. split; [|exact I].
     unfold gd_pos. rewrite !map_length. reflexivity.
-  - intros Ds. unfold k_inertia_z. cbn [fst snd]. rewrite dot_lists_1.
+  - intros Ds _. unfold k_inertia_z. cbn [fst snd]. rewrite dot_lists_1.
     apply (is_derive_ext (fun t => tsum Rops (map (fun p => v3dot Rops p ax * v3dot Rops p ax) (move_pos (gd_pos (gnth gs 0)) t (nth 0 Ds []))))).
     + intros t. rewrite gnth_move, gd_pos_move. reflexivity.
     + unfold tw, ofnat. cbn [nofZ nmul Rops Z.of_nat Pos.of_succ_nat Pos.succ]. apply sumsqz_dir.
@@ -1327,7 +1333,7 @@ Proof.
   pose proof (gds_wf_nth gs 3 2 Hwf ltac:(lia)) as W2.
   split.
   - unfold k_distance_z2. cbv zeta. cbn [snd]. apply (shape_3 (gnth gs 0) (gnth gs 1) (gnth gs 2)); [apply gds_3; exact Hwf| | |]; apply wgrad_length.
-  - intros Ds. unfold k_distance_z2. cbv zeta. cbn [fst snd]. rewrite dot_lists_3, !wgrad_dot by assumption. rewrite !pdist_plain by exact Hpl.
+  - intros Ds _. unfold k_distance_z2. cbv zeta. cbn [fst snd]. rewrite dot_lists_3, !wgrad_dot by assumption. rewrite !pdist_plain by exact Hpl.
     set (cm := gd_com Rops (gnth gs 0)) in *. set (c1 := gd_com Rops (gnth gs 1)) in *. set (c2 := gd_com Rops (gnth gs 2)) in *.
     set (Em := comdir (gnth gs 0) (nth 0 Ds [])). set (E1 := comdir (gnth gs 1) (nth 1 Ds [])). set (E2 := comdir (gnth gs 2) (nth 2 Ds [])).
     apply (is_derive_ext (fun t => v3dot Rops (vunit Rops (v3sub Rops (v3add Rops c2 (v3scale Rops t E2)) (v3add Rops c1 (v3scale Rops t E1))))
@@ -1394,7 +1400,7 @@ Proof.
   pose proof (gds_wf_nth gs 3 2 Hwf ltac:(lia)) as W2.
   split.
   - unfold k_angle. cbv zeta. cbn [snd]. apply (shape_3 (gnth gs 0) (gnth gs 1) (gnth gs 2)); [apply gds_3; exact Hwf| | |]; apply wgrad_length.
-  - intros Ds. unfold k_angle. cbv zeta. cbn [fst snd]. rewrite dot_lists_3, !wgrad_dot by assumption. rewrite !pdist_plain by exact Hpl.
+  - intros Ds _. unfold k_angle. cbv zeta. cbn [fst snd]. rewrite dot_lists_3, !wgrad_dot by assumption. rewrite !pdist_plain by exact Hpl.
     fold r21 r23.
     set (c1 := gd_com Rops (gnth gs 0)) in *. set (c2 := gd_com Rops (gnth gs 1)) in *. set (c3 := gd_com Rops (gnth gs 2)) in *.
     set (E1 := comdir (gnth gs 0) (nth 0 Ds [])). set (E2 := comdir (gnth gs 1) (nth 1 Ds [])). set (E3 := comdir (gnth gs 2) (nth 2 Ds [])).
@@ -1488,7 +1494,7 @@ Proof.
     rewrite Reqb_false by (unfold vnorm in Hx; cbn [nsqrt Rops] in Hx; exact Hx). reflexivity. }
   split.
   - rewrite Eg. apply (shape_3 (gnth gs 0) (gnth gs 1) (gnth gs 2)); [apply gds_3; exact Hwf| | |]; apply wgrad_length.
-  - intros Ds. rewrite Eg, dot_lists_3, !wgrad_dot by assumption.
+  - intros Ds _. rewrite Eg, dot_lists_3, !wgrad_dot by assumption.
     set (Em := comdir (gnth gs 0) (nth 0 Ds [])). set (E1 := comdir (gnth gs 1) (nth 1 Ds [])). set (E2 := comdir (gnth gs 2) (nth 2 Ds [])).
     set (Dt := fun t => v3sub Rops (v3add Rops cm (v3scale Rops t Em)) (v3add Rops c1 (v3scale Rops t E1))).
     set (Ut := fun t => v3sub Rops (v3add Rops c2 (v3scale Rops t E2)) (v3add Rops c1 (v3scale Rops t E1))).
@@ -1515,6 +1521,270 @@ Proof.
       * cbv beta. rewrite ED0, EU0. fold a. fold (vperp d a). fold v.
         apply (xy2_algebra d a Em E1 E2 (vnorm Rops u) (vnorm Rops v) HL Hx).
         apply vperp_orth. apply vunit_norm2. exact Hnu.
+Qed.
+
+(* ------------------------------------------------------------------ pair sums (coordNum) *)
+Lemma move_pos_combine (l D : list V3) t : length D = length l ->
+  move_pos l t D = map (fun pd => v3add Rops (fst pd) (v3scale Rops t (snd pd))) (combine l D).
+Proof.
+  revert D. induction l as [|p l IH]; intros D Hl; destruct D as [|d D']; cbn [length] in Hl; try lia; [reflexivity|].
+  cbn [move_pos combine map fst snd]. rewrite IH by lia. reflexivity.
+Qed.
+Lemma combine_fst (l D : list V3) : length D = length l -> map fst (combine l D) = l.
+Proof.
+  revert D. induction l as [|p l IH]; intros D Hl; destruct D as [|d D']; cbn [length] in Hl; try lia; [reflexivity|].
+  cbn [combine map fst]. rewrite IH by lia. reflexivity.
+Qed.
+Lemma dot_list_map (F : V3 -> V3) (l D : list V3) : length D = length l ->
+  dot_list (map F l) D = tsum Rops (map (fun pd => v3dot Rops (F (fst pd)) (snd pd)) (combine l D)).
+Proof.
+  revert D. induction l as [|p l IH]; intros D Hl; destruct D as [|d D']; cbn [length] in Hl; try lia; [reflexivity|].
+  cbn [map dot_list combine fst snd]. rewrite tsum_cons, IH by lia. reflexivity.
+Qed.
+Lemma v3dot_vsum {A} (G : A -> V3) (l : list A) (d : V3) : v3dot Rops (vsum Rops (map G l)) d = tsum Rops (map (fun x => v3dot Rops (G x) d) l).
+Proof.
+  induction l as [|a l IH]; cbn [map].
+  - rewrite tsum_nil. unfold vsum. cbn [fold_right]. rewrite v3dot_get, !vget_zero. ring.
+  - rewrite vsum_cons, tsum_cons, <- IH. rewrite !v3dot_get, !vget_add. ring.
+Qed.
+Lemma tsum_map_fst {A B} (h : A -> R) (l : list (A * B)) : tsum Rops (map (fun ab => h (fst ab)) l) = tsum Rops (map h (map fst l)).
+Proof. rewrite map_map. reflexivity. Qed.
+
+(* f(p, q) depends on the two positions with gradient g(p, q) in q and -g(p, q) in p *)
+Definition pair_correct (f : V3 -> V3 -> R) (g : V3 -> V3 -> V3) (p q : V3) : Prop :=
+  forall dp dq, is_derive (fun t => f (v3add Rops p (v3scale Rops t dp)) (v3add Rops q (v3scale Rops t dq))) 0
+                          (v3dot Rops (g p q) (v3sub Rops dq dp)).
+
+Lemma pair_dir (f : V3 -> V3 -> R) (g : V3 -> V3 -> V3) (l1 l2 D1 D2 : list V3) :
+  (forall p q, In p l1 -> In q l2 -> pair_correct f g p q) ->
+  length D1 = length l1 -> length D2 = length l2 ->
+  is_derive (fun t => pair_sum Rops f (move_pos l1 t D1) (move_pos l2 t D2)) 0
+            (dot_list (pair_grad1 Rops (fun p q => vneg Rops (g p q)) l1 l2) D1 + dot_list (pair_grad2 Rops g l1 l2) D2).
+Proof.
+  intros Hpc H1 H2.
+  set (c1 := combine l1 D1). set (c2 := combine l2 D2).
+  apply (is_derive_ext (fun t => tsum Rops (map (fun a => tsum Rops (map (fun b =>
+            f (v3add Rops (fst a) (v3scale Rops t (snd a))) (v3add Rops (fst b) (v3scale Rops t (snd b)))) c2)) c1))).
+  - intros t. unfold pair_sum. rewrite (move_pos_combine l1 D1 t H1), (move_pos_combine l2 D2 t H2). fold c1 c2.
+    rewrite map_map. apply tsum_ext. intros a _. rewrite map_map. reflexivity.
+  - replace (dot_list (pair_grad1 Rops (fun p q => vneg Rops (g p q)) l1 l2) D1 + dot_list (pair_grad2 Rops g l1 l2) D2)
+      with (tsum Rops (map (fun a => tsum Rops (map (fun b => v3dot Rops (g (fst a) (fst b)) (v3sub Rops (snd b) (snd a))) c2)) c1)).
+    + apply (is_derive_tsum (fun a t => tsum Rops (map (fun b => f (v3add Rops (fst a) (v3scale Rops t (snd a))) (v3add Rops (fst b) (v3scale Rops t (snd b)))) c2))).
+      intros a Ha.
+      apply (is_derive_tsum (fun b t => f (v3add Rops (fst a) (v3scale Rops t (snd a))) (v3add Rops (fst b) (v3scale Rops t (snd b))))).
+      intros b Hb. apply Hpc.
+      * destruct a as [p d]. apply (in_combine_l l1 D1 p d). exact Ha.
+      * destruct b as [q e]. apply (in_combine_l l2 D2 q e). exact Hb.
+    + unfold pair_grad1, pair_grad2.
+      rewrite (dot_list_map (fun p1 => vsum Rops (map (fun p2 => vneg Rops (g p1 p2)) l2)) l1 D1 H1).
+      rewrite (dot_list_map (fun p2 => vsum Rops (map (fun p1 => g p1 p2) l1)) l2 D2 H2). fold c1 c2.
+      (* first sum: over a in c1, over q in l2 = map fst c2 *)
+      rewrite (tsum_ext (fun pd => v3dot Rops (vsum Rops (map (fun p2 => vneg Rops (g (fst pd) p2)) l2)) (snd pd))
+                        (fun a => tsum Rops (map (fun b => - v3dot Rops (g (fst a) (fst b)) (snd a)) c2)) c1).
+      2:{ intros a _. rewrite v3dot_vsum. rewrite <- (combine_fst l2 D2 H2) at 1. fold c2. rewrite map_map. apply tsum_ext. intros b _.
+          apply v3dot_neg_l. }
+      rewrite (tsum_ext (fun pd => v3dot Rops (vsum Rops (map (fun p1 => g p1 (fst pd)) l1)) (snd pd))
+                        (fun b => tsum Rops (map (fun a => v3dot Rops (g (fst a) (fst b)) (snd b)) c1)) c2).
+      2:{ intros b _. rewrite v3dot_vsum. rewrite <- (combine_fst l1 D1 H1) at 1. fold c1. rewrite map_map. reflexivity. }
+      rewrite (tsum_swap (fun (b : V3 * V3) (a : V3 * V3) => v3dot Rops (g (fst a) (fst b)) (snd b)) c2 c1).
+      rewrite <- tsum_plus. apply tsum_ext. intros a _. rewrite <- tsum_plus. apply tsum_ext. intros b _.
+      rewrite v3dot_sub_r. ring.
+Qed.
+
+(* ---- the rational switching function of coordNum ---- *)
+Definition swF (n m : nat) (x : R) : R := (1 - x ^ n) / (1 - x ^ m).
+
+Lemma pow_ne_1 x n : 0 <= x -> x <> 1 -> (1 <= n)%nat -> x ^ n <> 1 /\ (x < 1 -> x ^ n < 1) /\ (1 < x -> 1 < x ^ n).
+Proof.
+  intros Hx Hne Hn.
+  assert (A : x < 1 -> x ^ n < 1) by (intros H; apply (pow_lt_1_compat x n); [lra|lia]).
+  assert (B : 1 < x -> 1 < x ^ n) by (intros H; apply Rlt_pow_R1; [exact H|lia]).
+  split; [|split; assumption].
+  destruct (Rlt_dec x 1) as [H|H]; [specialize (A H); lra|]. assert (1 < x) by lra. specialize (B H0). lra.
+Qed.
+
+Lemma swF_pos n m x : 0 <= x -> x <> 1 -> (1 <= n)%nat -> (1 <= m)%nat -> 0 < swF n m x.
+Proof.
+  intros Hx Hne Hn Hm. unfold swF.
+  destruct (pow_ne_1 x n Hx Hne Hn) as (_ & An & Bn). destruct (pow_ne_1 x m Hx Hne Hm) as (_ & Am & Bm).
+  destruct (Rlt_dec x 1) as [H|H].
+  - specialize (An H). specialize (Am H). apply Rdiv_lt_0_compat; lra.
+  - assert (H1 : 1 < x) by lra. specialize (Bn H1). specialize (Bm H1).
+    replace ((1 - x ^ n) / (1 - x ^ m)) with ((x ^ n - 1) / (x ^ m - 1)) by (field; lra).
+    apply Rdiv_lt_0_compat; lra.
+Qed.
+
+Lemma pow_pred x n : x <> 0 -> (1 <= n)%nat -> x ^ Init.Nat.pred n = x ^ n / x.
+Proof. intros Hx Hn. destruct n as [|n']; [lia|]. cbn [Init.Nat.pred pow]. field. exact Hx. Qed.
+
+Lemma swF_derive n m x : x <> 0 -> x ^ n <> 1 -> x ^ m <> 1 -> (1 <= n)%nat -> (1 <= m)%nat ->
+  is_derive (swF n m) x (swF n m x * (INR m * x ^ m / ((1 - x ^ m) * x) - INR n * x ^ n / ((1 - x ^ n) * x))).
+Proof.
+  intros Hx Hn1 Hm1 Hn Hm. unfold swF. auto_derive.
+  - lra.
+  - rewrite (pow_pred x n Hx Hn), (pow_pred x m Hx Hm). field. repeat split; lra.
+Qed.
+
+Definition l2of (r0 : R) (d : V3) : R := v3norm2 Rops d / (r0 * r0).
+
+Lemma sw_l2_eq r0 (p q : V3) : r0 <> 0 -> sw_l2 Rops None r0 p q = l2of r0 (v3sub Rops q p).
+Proof.
+  intros Hr. unfold sw_l2, l2of. cbn [position_distance].
+  destruct (v3sub Rops q p) as [[dx dy] dz]. unfold v3norm2, v3dot. cbn [nadd nmul ndiv Rops]. field. exact Hr.
+Qed.
+Lemma l2of_nonneg r0 d : r0 <> 0 -> 0 <= l2of r0 d.
+Proof.
+  intros Hr. unfold l2of. destruct d as [[x y] z]. unfold v3norm2, v3dot. cbn [nadd nmul Rops].
+  apply Rmult_le_pos; [nra|]. apply Rlt_le, Rinv_0_lt_compat. nra.
+Qed.
+
+Lemma sw_func_eq r0 n m (p q : V3) : r0 <> 0 -> (1 <= n)%nat -> (1 <= m)%nat -> l2of r0 (v3sub Rops q p) <> 1 ->
+  sw_func Rops None r0 n m p q = swF n m (l2of r0 (v3sub Rops q p)).
+Proof.
+  intros Hr Hn Hm Hne. unfold sw_func. rewrite (sw_l2_eq r0 p q Hr), !ipow_nat.
+  unfold one, zero. cbn [n0 n1 nsub ndiv nltb Rops]. fold (swF n m (l2of r0 (v3sub Rops q p))).
+  pose proof (swF_pos n m _ (l2of_nonneg r0 (v3sub Rops q p) Hr) Hne Hn Hm) as Hp.
+  replace (Rltb (swF n m (l2of r0 (v3sub Rops q p))) 0) with false by (symmetry; apply Rltb_false; lra). reflexivity.
+Qed.
+
+Lemma l2of_line_derive r0 (d e : V3) : r0 <> 0 ->
+  is_derive (fun t => l2of r0 (v3add Rops d (v3scale Rops t e))) 0 (2 / (r0 * r0) * v3dot Rops d e).
+Proof.
+  intros Hr. unfold l2of, v3norm2.
+  evar_last.
+  - apply (is_derive_div (fun t => v3dot Rops (v3add Rops d (v3scale Rops t e)) (v3add Rops d (v3scale Rops t e))) (fun _ => r0 * r0) 0).
+    + apply (derive_dot _ _ 0 e e); apply vderive_line.
+    + apply @is_derive_const.
+    + nra.
+  - cbv beta. rewrite !line_zero. rewrite (v3dot_get e d), (v3dot_get d e). change (@Hierarchy.zero R_NormedModule) with 0. field. exact Hr.
+Qed.
+
+Lemma pair_correct_sw r0 n m (p q : V3) : r0 <> 0 -> (1 <= n)%nat -> (1 <= m)%nat ->
+  l2of r0 (v3sub Rops q p) <> 0 -> l2of r0 (v3sub Rops q p) <> 1 ->
+  pair_correct (sw_func Rops None r0 n m) (sw_grad Rops None r0 n m) p q.
+Proof.
+  intros Hr Hn Hm Hne0 Hne1 dp dq.
+  set (d := v3sub Rops q p) in *. set (e := v3sub Rops dq dp).
+  set (X := fun t => l2of r0 (v3add Rops d (v3scale Rops t e))).
+  assert (HX : is_derive X 0 (2 / (r0 * r0) * v3dot Rops d e)) by (apply l2of_line_derive; exact Hr).
+  assert (X0 : X 0 = l2of r0 d) by (unfold X; rewrite line_zero; reflexivity).
+  pose proof (l2of_nonneg r0 d Hr) as Hge.
+  destruct (pow_ne_1 _ n Hge Hne1 Hn) as (Pn & _). destruct (pow_ne_1 _ m Hge Hne1 Hm) as (Pm & _).
+  apply (is_derive_ext_loc (fun t => swF n m (X t))).
+  - (* near t = 0 the pair stays away from the cut-off *)
+    assert (Hloc : locally 0 (fun t => X t - 1 <> 0)).
+    { eapply (locally_nonzero (fun t => X t - 1) 0).
+      - apply @is_derive_minus; [exact HX|apply @is_derive_const].
+      - rewrite X0. lra. }
+    generalize Hloc. apply filter_imp. intros t Ht. unfold X in *. symmetry.
+    rewrite sw_func_eq; try assumption.
+    + rewrite (line_sub p q dp dq t). reflexivity.
+    + rewrite (line_sub p q dp dq t). intros E. apply Ht. unfold d, e. rewrite E. ring.
+  - evar_last.
+    + apply (is_derive_comp (swF n m) X); [|exact HX].
+      unfold X. cbv beta. rewrite line_zero. apply swF_derive; assumption.
+    + lazymatch goal with |- context [scal ?a ?b] => change (scal a b) with (Rmult a b) end.
+      (* the model's gradient *)
+      unfold sw_grad. rewrite (sw_l2_eq r0 p q Hr), !ipow_nat. cbn [position_distance]. fold d.
+      unfold one, zero, ofnat, tw. cbn [n0 n1 nsub ndiv nmul nltb nofZ Rops].
+      fold (swF n m (l2of r0 d)).
+      pose proof (swF_pos n m _ Hge Hne1 Hn Hm) as Hp.
+      replace (Rltb (swF n m (l2of r0 d)) 0) with false by (symmetry; apply Rltb_false; lra).
+      rewrite !v3dot_scale_l. rewrite <- !INR_IZR_INZ. change (ofnat Rops 2) with 2. ring.
+Qed.
+
+(* ---- coordNum (group1 x group2 pairs, isotropic cut-off, no cell) ---- *)
+Definition pairs_ok (r0 : R) (l1 l2 : list V3) : Prop :=
+  forall p q, In p l1 -> In q l2 -> l2of r0 (v3sub Rops q p) <> 0 /\ l2of r0 (v3sub Rops q p) <> 1.
+
+Lemma shape_ok_2 (D0 D1 : list V3) (Ds : list (list V3)) (gs : list GD) : length gs = 2%nat -> shape_ok Ds gs ->
+  length (nth 0 Ds []) = length (gd_atoms (gnth gs 0)) /\ length (nth 1 Ds []) = length (gd_atoms (gnth gs 1)).
+Proof.
+  intros Hl Hs. destruct gs as [|g0 [|g1 [|g2 r]]]; cbn [length] in Hl; try lia.
+  destruct Ds as [|E0 Ds1]; cbn [shape_ok] in Hs; [contradiction|].
+  destruct Hs as [H0 Hs]. destruct Ds1 as [|E1 Ds2]; cbn [shape_ok] in Hs; [contradiction|].
+  destruct Hs as [H1 _]. unfold gnth. cbn [nth]. split; assumption.
+Qed.
+
+Lemma dir_correct_coordnum r0 n m (gs : list GD) : length gs = 2%nat -> r0 <> 0 -> (1 <= n)%nat -> (1 <= m)%nat ->
+  pairs_ok r0 (gd_pos (gnth gs 0)) (gd_pos (gnth gs 1)) ->
+  dir_correct (k_coordnum Rops None r0 n m false) gs.
+Proof.
+  intros Hl Hr Hn Hm Hok.
+  assert (Egs : gs = [gnth gs 0; gnth gs 1]) by (destruct gs as [|g0 [|g1 [|g2 r]]]; cbn [length] in Hl; try lia; reflexivity).
+  split.
+  - unfold k_coordnum. cbv zeta. cbn [snd]. apply (shape_2 (gnth gs 0) (gnth gs 1)); [exact Egs| |];
+      unfold pair_grad1, pair_grad2, gd_pos; rewrite !map_length; reflexivity.
+  - intros Ds Hs. destruct (shape_ok_2 [] [] Ds gs Hl Hs) as [H0 H1].
+    unfold k_coordnum. cbv zeta. cbn [fst snd]. rewrite dot_lists_2.
+    apply (is_derive_ext (fun t => pair_sum Rops (sw_func Rops None r0 n m) (move_pos (gd_pos (gnth gs 0)) t (nth 0 Ds []))
+                                            (move_pos (gd_pos (gnth gs 1)) t (nth 1 Ds [])))).
+    + intros t. rewrite !gnth_move, !gd_pos_move. reflexivity.
+    + apply pair_dir.
+      * intros p q Hp Hq. destruct (Hok p q Hp Hq) as [A B]. apply pair_correct_sw; assumption.
+      * unfold gd_pos. rewrite map_length. exact H0.
+      * unfold gd_pos. rewrite map_length. exact H1.
+Qed.
+
+(* ---- selfCoordNum (pairs i < j of one group) ---- *)
+Fixpoint self_ok (P : V3 -> V3 -> Prop) (l : list V3) : Prop :=
+  match l with [] => True | p :: r => (forall q, In q r -> P p q) /\ self_ok P r end.
+
+Lemma self_grad_length (g : V3 -> V3 -> V3) (l : list V3) : length (self_grad Rops g l) = length l.
+Proof.
+  induction l as [|p r IH]; [reflexivity|]. cbn [self_grad length]. rewrite map_length, combine_length, IH, Nat.min_id. reflexivity.
+Qed.
+
+Lemma dot_list_add_combine (F : V3 -> V3) (r SG D : list V3) : length SG = length r -> length D = length r ->
+  dot_list (map (fun qg => v3add Rops (F (fst qg)) (snd qg)) (combine r SG)) D = dot_list (map F r) D + dot_list SG D.
+Proof.
+  revert SG D. induction r as [|q r IH]; intros SG D H1 H2; destruct SG as [|sg SG'], D as [|d D']; cbn [length] in *; try lia.
+  - cbn [combine map dot_list]. ring.
+  - cbn [combine map dot_list fst snd]. rewrite IH by lia. rewrite !v3dot_get, !vget_add. ring.
+Qed.
+
+Lemma self_dir (f : V3 -> V3 -> R) (g : V3 -> V3 -> V3) (l D : list V3) :
+  self_ok (pair_correct f g) l -> length D = length l ->
+  is_derive (fun t => self_sum Rops f (move_pos l t D)) 0 (dot_list (self_grad Rops g l) D).
+Proof.
+  revert D. induction l as [|p r IH]; intros D Hok Hl.
+  - cbn [move_pos self_sum self_grad dot_list]. apply @is_derive_const.
+  - destruct D as [|d D']; cbn [length] in Hl; [lia|]. destruct Hok as [Hp Hr].
+    cbn [move_pos self_sum self_grad dot_list].
+    apply (is_derive_ext (fun t => pair_sum Rops f (move_pos [p] t [d]) (move_pos r t D') + self_sum Rops f (move_pos r t D'))).
+    + intros t. unfold pair_sum. cbn [move_pos map]. rewrite tsum_cons, tsum_nil, Rplus_0_r. reflexivity.
+    + replace (v3dot Rops (vsum Rops (map (fun q => vneg Rops (g p q)) r)) d
+               + dot_list (map (fun qg => v3add Rops (g p (fst qg)) (snd qg)) (combine r (self_grad Rops g r))) D')
+        with ((dot_list (pair_grad1 Rops (fun p0 q => vneg Rops (g p0 q)) [p] r) [d] + dot_list (pair_grad2 Rops g [p] r) D')
+              + dot_list (self_grad Rops g r) D').
+      * apply @is_derive_plus.
+        -- apply pair_dir; [|reflexivity|lia]. intros p0 q [<-|[]] Hq. apply Hp. exact Hq.
+        -- apply IH; [exact Hr|lia].
+      * rewrite dot_list_add_combine by (rewrite ?self_grad_length; lia).
+        unfold pair_grad1, pair_grad2. cbn [map dot_list]. 
+        assert (E : dot_list (map (fun p2 => vsum Rops [g p p2]) r) D' = dot_list (map (g p) r) D').
+        { f_equal. apply map_ext. intros q. apply v3_ext. intros j. rewrite vsum_cons, vget_add. unfold vsum. cbn [fold_right]. rewrite vget_zero. ring. }
+        rewrite E. ring.
+Qed.
+
+Lemma dir_correct_selfcoordnum r0 n m (gs : list GD) : length gs = 1%nat -> r0 <> 0 -> (1 <= n)%nat -> (1 <= m)%nat ->
+  self_ok (fun p q => l2of r0 (v3sub Rops q p) <> 0 /\ l2of r0 (v3sub Rops q p) <> 1) (gd_pos (gnth gs 0)) ->
+  dir_correct (k_selfcoordnum Rops None r0 n m) gs.
+Proof.
+  intros Hl Hr Hn Hm Hok.
+  pose proof (gds_1 gs Hl) as Egs.
+  split.
+  - unfold k_selfcoordnum. cbn [snd]. set (g0 := gnth gs 0) in *. rewrite Egs. cbn [shape_ok]. split; [|exact I].
+    rewrite self_grad_length. unfold gd_pos. rewrite map_length. reflexivity.
+  - intros Ds Hs. unfold k_selfcoordnum. cbn [fst snd]. rewrite dot_lists_1.
+    assert (H0 : length (nth 0 Ds []) = length (gd_atoms (gnth gs 0))).
+    { set (g0 := gnth gs 0) in *. rewrite Egs in Hs. destruct Ds as [|E0 Ds1]; cbn [shape_ok] in Hs; [contradiction|]. cbn [nth]. apply Hs. }
+    apply (is_derive_ext (fun t => self_sum Rops (sw_func Rops None r0 n m) (move_pos (gd_pos (gnth gs 0)) t (nth 0 Ds [])))).
+    + intros t. rewrite gnth_move, gd_pos_move. reflexivity.
+    + apply self_dir.
+      * generalize Hok. generalize (gd_pos (gnth gs 0)) as l. intros l. induction l as [|p r IHl]; cbn [self_ok]; [auto|].
+        intros [A B]. split; [|apply IHl; exact B]. intros q Hq. destruct (A q Hq). apply pair_correct_sw; assumption.
+      * unfold gd_pos. rewrite map_length. exact H0.
 Qed.
 
 (* ------------------------------------------------------------------ more components as functions of the atomic coordinates *)
@@ -1582,6 +1852,32 @@ Proof.
     rewrite (tsum_ext (fun p : V3 => vget AZ p * vget AZ ax) (fun p => vget AZ ax * vget AZ p)) by (intros; ring).
     rewrite !tsum_scale'. rewrite <- !vget_vsum. rewrite centred_vsum by exact Hne. rewrite !vget_scale, !vget_zero. ring.
 Qed.
+Definition grp_ok0 (s : SYS) (g : GRP) : Prop := wf_group s g /\ fit_on g.
+
+Lemma cvc_grad_correct_coordNum co e r0 n m g1 g2 (s : SYS) :
+  grp_ok0 s g1 -> grp_ok0 s g2 -> r0 <> 0 -> (1 <= n)%nat -> (1 <= m)%nat ->
+  pairs_ok r0 (gd_pos (gdata_of Rops s g1)) (gd_pos (gdata_of Rops s g2)) ->
+  cvc_grad_correct None (mkCvc co e (KCoordNum r0 n m false) [g1; g2]) s.
+Proof.
+  intros (W1 & F1) (W2 & F2) Hr Hn Hm Hok.
+  apply group_layer; cbn [c_groups c_kind keval].
+  - repeat constructor; assumption.
+  - apply dir_correct_coordnum; try assumption; reflexivity.
+  - apply fit_ok_on. repeat constructor; assumption.
+Qed.
+
+Lemma cvc_grad_correct_selfCoordNum co e r0 n m g1 (s : SYS) :
+  grp_ok0 s g1 -> r0 <> 0 -> (1 <= n)%nat -> (1 <= m)%nat ->
+  self_ok (fun p q => l2of r0 (v3sub Rops q p) <> 0 /\ l2of r0 (v3sub Rops q p) <> 1) (gd_pos (gdata_of Rops s g1)) ->
+  cvc_grad_correct None (mkCvc co e (KSelfCoordNum r0 n m) [g1]) s.
+Proof.
+  intros (W1 & F1) Hr Hn Hm Hok.
+  apply group_layer; cbn [c_groups c_kind keval].
+  - repeat constructor; assumption.
+  - apply dir_correct_selfcoordnum; try assumption; reflexivity.
+  - apply fit_ok_on. repeat constructor; assumption.
+Qed.
+
 (* ------------------------------------------------------------------ closed form: guards instead of abstract hypotheses *)
 Definition com_of (s : SYS) (g : GRP) : V3 := gd_com Rops (gdata_of Rops s g).
 
@@ -1600,6 +1896,12 @@ Definition kind_guard (cell : option V3) (c : cvc) (s : SYS) : Prop :=
   | KAngle pbc, [g1; g2; g3] =>
     grp_ok s g1 /\ grp_ok s g2 /\ grp_ok s g3 /\ plain pbc cell /\ com_of s g1 <> com_of s g2 /\ com_of s g3 <> com_of s g2 /\
     -1 < cosang (v3sub Rops (com_of s g1) (com_of s g2)) (v3sub Rops (com_of s g3) (com_of s g2)) < 1
+  | KCoordNum r0 n m false, [g1; g2] =>
+    cell = None /\ grp_ok0 s g1 /\ grp_ok0 s g2 /\ r0 <> 0 /\ (1 <= n)%nat /\ (1 <= m)%nat /\
+    pairs_ok r0 (gd_pos (gdata_of Rops s g1)) (gd_pos (gdata_of Rops s g2))          (* no pair coincident or exactly at the cut-off *)
+  | KSelfCoordNum r0 n m, [g1] =>
+    cell = None /\ grp_ok0 s g1 /\ r0 <> 0 /\ (1 <= n)%nat /\ (1 <= m)%nat /\
+    self_ok (fun p q => l2of r0 (v3sub Rops q p) <> 0 /\ l2of r0 (v3sub Rops q p) <> 1) (gd_pos (gdata_of Rops s g1))
   | KInertia, [GAtoms ids (Some z) None false] => z = vzero Rops /\ ids_ok s ids /\ ids <> []
   | KInertiaZ ax, [GAtoms ids (Some z) None false] => z = vzero Rops /\ ids_ok s ids /\ ids <> []
   | KGyration, [GAtoms ids (Some z) None false] =>
@@ -1635,6 +1937,10 @@ Proof.
     destruct Hk as (-> & Hi & Hne). apply cvc_grad_correct_inertiaZ; assumption.
   - destruct groups as [|g1 [|g2 [|g3 [|g4 r]]]]; try contradiction. destruct Hk as (H1 & H2 & H3 & Hp & Hn1 & Hn3 & Hc).
     apply cvc_grad_correct_angle; assumption.
+  - destruct g2center; try contradiction. destruct groups as [|g1 [|g2 [|g3 r]]]; try contradiction.
+    destruct Hk as (-> & H1 & H2 & Hr & Hn & Hm & Hok). apply cvc_grad_correct_coordNum; assumption.
+  - destruct groups as [|g1 [|g2 r]]; try contradiction.
+    destruct Hk as (-> & H1 & Hr & Hn & Hm & Hok). apply cvc_grad_correct_selfCoordNum; assumption.
 Qed.
 
 Definition bias_guard (b : bias) (ws : list cvar) (x0 : list R) : Prop :=
